@@ -139,8 +139,11 @@ def parse_function(fcn_str: str) -> tuple:
     # Where dep_list corresponds to a list of keys for
     # the dict that needs to be passed to fcn()
     # supported_functions is a dict mapping ast names to functors imported in the namespace of this file
-    assert "__" not in fcn_str, "Cannot use double underscores in functions"
-    assert len(fcn_str) < 1800  # Function string must be less than 1800 characters
+    # nb. these guards raise explicitly (rather than using `assert`) so that they remain in place under `python -O`
+    if "__" in fcn_str:
+        raise AssertionError("Cannot use double underscores in functions")
+    if len(fcn_str) >= 1800:
+        raise AssertionError("Function string must be less than 1800 characters")
     fcn_str = fcn_str.replace(":", "___")
     fcn_ast = ast.parse(fcn_str, mode="eval")
     fcn_ast = _DivTransformer().visit(fcn_ast)
@@ -149,13 +152,17 @@ def parse_function(fcn_str: str) -> tuple:
     for node in ast.walk(fcn_ast):
         if isinstance(node, ast.Name):
             # Python normalizes identifiers, so a double underscore can be spelled with characters that the check on the string above does not see
-            assert "__" not in node.id.replace("___", ":"), "Cannot use double underscores in functions"
+            if "__" in node.id.replace("___", ":"):
+                raise AssertionError("Cannot use double underscores in functions")
         if isinstance(node, ast.Name) and node.id not in supported_functions:
             dep_list.append(node.id)
         elif isinstance(node, ast.Call):
-            assert isinstance(node.func, ast.Name), f"Only direct calls to supported functions are allowed (in {fcn_str})"
-            assert node.func.id in supported_functions, f"Only calls to supported functions are allowed ({node.func.id} in {fcn_str} is not supported)"
-            assert not node.keywords and not any(isinstance(arg, ast.Starred) for arg in node.args), f"Only positional arguments can be passed to functions (in {fcn_str})"
+            if not isinstance(node.func, ast.Name):
+                raise AssertionError(f"Only direct calls to supported functions are allowed (in {fcn_str})")
+            if node.func.id not in supported_functions:
+                raise AssertionError(f"Only calls to supported functions are allowed ({node.func.id} in {fcn_str} is not supported)")
+            if node.keywords or any(isinstance(arg, ast.Starred) for arg in node.args):
+                raise AssertionError(f"Only positional arguments can be passed to functions (in {fcn_str})")
         elif isinstance(node, (ast.Attribute, ast.Lambda, ast.ListComp, ast.SetComp, ast.DictComp, ast.GeneratorExp, ast.NamedExpr)):
             raise AssertionError(f"Attribute access, lambdas, comprehensions and assignment expressions are not allowed in functions ({fcn_str})")
     compiled_code = compile(fcn_ast, filename="<ast>", mode="eval")
